@@ -174,6 +174,11 @@ Close(a, b, k, scale) == Leq(Abs(Sub(a, b)), Shift(scale, -k))
 (* relative closeness: |a-b| <= B^(-k) * max(|a|,|b|) *)
 RelClose(a, b, k) == Close(a, b, k, Max(Abs(a), Abs(b)))
 
+(* A fraction num/den equal to n/d (d > 0).  The reference definition returns the pair unchanged; the Java *)
+(* accelerator returns the fraction reduced by gcd (the same rational, a smaller representation) - users  *)
+(* must compare fractions by cross-multiplication only.                                                    *)
+RatNorm(n, d) == <<n, d>>
+
 (* value of a small Dy as an Int (only for tests; requires it to fit) *)
 RECURSIVE MagToInt(_, _)
 MagToInt(m, i) == IF i > Len(m) THEN 0 ELSE m[i] + B * MagToInt(m, i + 1)
